@@ -176,6 +176,13 @@ Theorem C19_category_deepest_last_wins : forall re evs classes i e,
 Proof. exact categorize_writes. Qed.
 Print Assumptions C19_category_deepest_last_wins.
 
+(* the plain reading of "Uncategorized when nothing matches" *)
+Theorem C19_category_uncategorized_when_nothing_matches : forall re classes e,
+  (forall c r, In (c, r) classes -> rule_match re r (c_data e) = false) ->
+  dget K_category (c_data (categorize_one re classes e)) = Some (VList [S_uncategorized]).
+Proof. exact nothing_matches_uncategorized. Qed.
+Print Assumptions C19_category_uncategorized_when_nothing_matches.
+
 (* _pick_category on its own, for any list of categories *)
 Theorem C19_pick_category : forall cats,
   ((exists c, In c cats /\ c <> []) ->
